@@ -94,21 +94,25 @@ Section Apply.
   Variable tolerate : bool.
 
   (* the loop over the directory entries: normalize each file into the output
-     directory; stops at the first expansion error, keeping what was written *)
-  Fixpoint write_all (fs : files) (out : files) : files * bool :=
+     directory; stops at the first expansion error, keeping what was written.
+     Returns the output directory, whether every file went through, and the
+     names written (in order). *)
+  Fixpoint write_all (fs : files) (out : files) : files * bool * list str :=
     match fs with
-    | [] => (out, true)
+    | [] => (out, true, [])
     | (n, c) :: r =>
       match expand env tolerate c with
-      | Some e => write_all r (upsert n e out)
-      | None => (out, false)
+      | Some e => let '(od, ok, w) := write_all r (upsert n e out) in (od, ok, n :: w)
+      | None => (out, false, [])
       end
     end.
 
   Definition files_eqb (a b : files) : bool :=
     list_eqb (fun x y => str_eqb (fst x) (fst y) && str_eqb (snd x) (snd y)) a b.
 
-  Definition apply (s : rst) (cfg : option str) (dir : files) (fails : nat) (give_up : bool) : rst * result :=
+  (* [fixed] = with repo_patches/C47-fix.patch: lastCfgDirFiles is created on
+     first use and every output is recorded in it as soon as it is written *)
+  Definition apply_gen (fixed : bool) (s : rst) (cfg : option str) (dir : files) (fails : nat) (give_up : bool) : rst * result :=
     let failed s' := (s', Result true false false 0) in
     (* config file *)
     let step1 : option (option str * option str) :=      (* (cfgHash, new out_cfg) *)
@@ -125,25 +129,49 @@ Section Apply.
     match step1 with
     | None => failed s
     | Some (cfg_hash, oc) =>
-      let s1 := Rst (last_cfg s) (last_dir s) (last_names s) (force s) oc (out_dir s) in
-      let (od, ok) := write_all dir (out_dir s1) in
-      if negb ok then failed (Rst (last_cfg s1) (last_dir s1) (last_names s1) (force s1) oc od)
+      let '(od, ok, written) := write_all dir (out_dir s) in
+      (* lastCfgDirFiles[0] as the removal step sees it *)
+      let prev :=
+        if fixed then Some (match last_names s with Some p => p | None => [] end ++ written)
+        else last_names s in
+      if negb ok then failed (Rst (last_cfg s) (last_dir s) prev (force s) oc od)
       else
         let names := map fst dir in
-        (* outputs of inputs that disappeared since the last complete pass *)
+        (* outputs of inputs that disappeared *)
         let od :=
-          match last_names s1 with
-          | Some prev => filter (fun f => negb (mem_str (fst f) prev && negb (mem_str (fst f) names))) od
+          match prev with
+          | Some pv => filter (fun f => negb (mem_str (fst f) pv && negb (mem_str (fst f) names))) od
           | None => od
           end in
-        let changed := match last_dir s1 with Some d => negb (files_eqb d dir) | None => true end in
-        let same_cfg := option_eqb str_eqb (last_cfg s1) cfg_hash in
-        if negb (force s1) && negb changed && same_cfg then
-          (Rst (last_cfg s1) (last_dir s1) (Some names) (force s1) oc od, Result false false false 0)
+        let changed := match last_dir s with Some d => negb (files_eqb d dir) | None => true end in
+        let same_cfg := option_eqb str_eqb (last_cfg s) cfg_hash in
+        if negb (force s) && negb changed && same_cfg then
+          (Rst (last_cfg s) (last_dir s) (Some names) (force s) oc od, Result false false false 0)
         else if give_up then
-          (Rst (last_cfg s1) (last_dir s1) (Some names) true oc od, Result false true false 0)
+          (Rst (last_cfg s) (last_dir s) (Some names) true oc od, Result false true false 0)
         else
           (Rst cfg_hash (Some dir) (Some names) false oc od, Result false true true (S fails))
+    end.
+
+  Definition apply := apply_gen true.
+  Definition apply_unfixed := apply_gen false.
+
+  (* ---- the loop of Watch ----
+     `for { select { case <-applyCtx.Done(): if ctx.Err() != nil { return } ; case <-r.watcher.notify: } ; ... r.apply(applyCtx) }`
+     as a state machine over events: a debounced file-system notification, the
+     watch interval running out, the parent context being cancelled. Each event
+     carries the file-system snapshot apply reads and the endpoint script. *)
+  Inductive event := ENotify | ETick | EDone.
+  Definition wstep := (event * (option str * files) * (nat * bool))%type.
+
+  Fixpoint watch (s : rst) (evs : list wstep) : rst * list result :=
+    match evs with
+    | [] => (s, [])
+    | (EDone, _, _) :: _ => (s, [])
+    | (_, (cfg, dir), (fails, give_up)) :: r =>
+      let (s', res) := apply s cfg dir fails give_up in
+      let (s'', rs) := watch s' r in
+      (s'', res :: rs)
     end.
 End Apply.
 
@@ -157,7 +185,13 @@ Definition obs := (bool * option str * files * bool * bool * option nat)%type.
 Definition step := ((option str * files) * (nat * bool) * obs)%type.
 
 Inductive case :=
-| CReload (has_cfg tolerate : bool) (env : list (str * str)) (steps : list step).
+| CReload (has_cfg tolerate : bool) (env : list (str * str)) (steps : list step)
+(* the real Watch loop (fsnotify + timers) ran while files were edited; observed
+   some watch intervals after the last edit: the outputs, whether a reload
+   succeeded after the last edit, the endpoint calls during further intervals,
+   and whether Watch returned after its context was cancelled *)
+| CWatch (has_cfg tolerate : bool) (env : list (str * str)) (cfg : option str) (dir : files)
+         (oc : option str) (od : files) (reloaded : bool) (extra_calls : nat) (returned : bool).
 
 Definition ostr_eqb := option_eqb str_eqb.
 
@@ -180,6 +214,10 @@ Fixpoint run_ok (has_cfg tolerate : bool) (env : str -> option str) (s : rst) (s
 Definition corr_ok (c : case) : bool :=
   match c with
   | CReload has_cfg tolerate env steps => run_ok has_cfg tolerate (env_of env) init steps
+  | CWatch has_cfg tolerate env cfg dir oc od _ _ _ =>
+      (* the outputs are those of one model apply on the final snapshot *)
+      let '(s, r) := apply has_cfg (env_of env) tolerate init cfg dir 0 false in
+      negb (r_err r) && ostr_eqb (out_cfg s) oc && files_eqb (out_dir s) od
   end.
 
 (* ---- the property's predicate on the implementation's own observables ---- *)
@@ -215,4 +253,10 @@ Fixpoint pred_run (has_cfg tolerate : bool) (env : str -> option str)
 Definition pred_ok (c : case) : bool :=
   match c with
   | CReload has_cfg tolerate env steps => pred_run has_cfg tolerate (env_of env) None false steps
+  | CWatch has_cfg tolerate env cfg dir oc od reloaded extra_calls returned =>
+      let e := env_of env in
+      (if has_cfg then match cfg with Some c => ostr_eqb oc (expand e tolerate c) | None => false end else true)
+      && forallb (fun f => ostr_eqb (lookup (fst f) od) (expand e tolerate (snd f))) dir
+      && forallb (fun f => mem_str (fst f) (map fst dir)) od
+      && reloaded && Nat.eqb extra_calls 0 && returned
   end.
